@@ -34,6 +34,12 @@ for e, fns, d in (('h_wake_up', ('urcu_adaptative_wake_up',), 'urcu_adaptative_w
 OBLIGATIONS += [o for o in _c01.OBLIGATIONS if o.name.startswith('C01.O4.')]
 # C02.O1: reader half (store of the reader word -> full barrier -> test of futex / waiting; wake-up iff needed)
 OBLIGATIONS += [o for o in _c01.OBLIGATIONS if o.name.startswith('C01.O2.') and o.name.endswith('.unlock') or o.name.startswith('C01.O3.qsbr.')]
+# the wait queue of merged callers is a wfstack: a wrong 'was non-empty' result of push leaves a grace period without leader (late import, resolved by engine/check.py)
+def _shared():
+    _r = []
+    from obligations import C11 as _c11
+    _r += [o for o in _c11.OBLIGATIONS if o.name in ('C11.O1.wfs_push', 'C11.O1.wfs_pop_all_iter')]
+    return _r
 META = {
     'level': 'other',
     'explanation': 'C02 is a liveness property (every synchronize_rcu returns under fair schedules). Contracts decide its per-function premises only: the sleep/wake handshake on both sides (reader side: C01.O2/O3 obligations on store -> barrier -> futex test; updater side and futex-wait loops here) as partial-correctness contracts under an adversarial futex (spurious wake-ups, EINTR, EAGAIN, ENOSYS) and an arbitrary waker. Termination itself is not decided.',
